@@ -402,7 +402,7 @@ def main(run, args):
     mism = []
     coq_cases = 0
     sig_checked = 0
-    if proofs_ok and tie_cases:
+    if model_ready(proofs_ok) and tie_cases:
         def flip(hexs, bit):
             b = bytearray.fromhex(hexs)
             b[bit // 8] ^= 1 << (bit % 8)
